@@ -235,8 +235,11 @@ def np_clip(I, st, args, kw, node):
 
 
 def np_where3(I, st, args, kw, node):
+    if len(args) == 1 and I.arr_of(args[0], st).ndim == 1:
+        # np.where(mask1d): a 1-tuple holding the increasing positions with a true mask
+        return VTuple([np_flatnonzero(I, st, args, kw, node)])
     if len(args) != 3:
-        raise Unsupported("np.where(cond) (index form)")
+        raise Unsupported("np.where(cond) (index form) of an n-d array")
     used("np.where(c, x, y): elementwise selection")
     c, x, y = args
     t = elementwise2(I, st, lambda cc, xx: VTuple([cc, xx]), c, x, node)
@@ -742,6 +745,23 @@ lib.BUILTIN_FUNCS.update({"mout": spec_mout, "rng_iter": spec_rng_iter, "mout_ro
                           "mout_cols": spec_mshape(1)})
 lib.OPAQUE_CALL["Filter"] = filter_call
 lib.BUILTIN_FUNCS.update({"filt": spec_filt, "filt_len": spec_filt_len})
+
+def np_finfo(I, st, args, kw, node):
+    used("np.finfo(float32 | float64): max / min / eps / tiny as exact rationals")
+    name = lib._dtype_name(args[0]) if args else "float64"
+    if name not in ("float32", "float64", "float"):
+        raise Unsupported(f"np.finfo({name})")
+    o = lib.Opaque(z3.Const(fresh_name("finfo"), lib.ObjS), "FInfo32" if name == "float32" else "FInfo64")
+    return o
+
+
+_FINFO = {"FInfo32": {"max": 3.4028234663852886e+38, "min": -3.4028234663852886e+38, "eps": 1.1920928955078125e-07,
+                      "tiny": 1.1754943508222875e-38},
+          "FInfo64": {"max": 1.7976931348623157e+308, "min": -1.7976931348623157e+308, "eps": 2.220446049250313e-16,
+                      "tiny": 2.2250738585072014e-308}}
+for _c, _vals in _FINFO.items():
+    lib.OPAQUE_ATTRS[_c] = {k_: (lambda I, st, base, v_=v_: v_) for k_, v_ in _vals.items()}
+lib.LIB["np.finfo"] = np_finfo
 
 # ------------------------------------------------------------------------------------------------ registration
 
